@@ -87,6 +87,8 @@ func CanonRequest(r *api.GenerateServiceRequest) (canon []string, orderKey strin
 }
 
 type genOptsC10 struct {
+	PluginTwoSpellings bool // the capturing plugin returns one file under two spellings
+	DerivedPrefix      bool // command line only: no --pkg-prefix, the prefix is derived from two nested $GOPATH entries
 	NoRecurse, NoTypes, NoConstants, NoServiceHelpers, NoEmbedIDL, NoZap, NoVersionCheck, Strict bool
 	OutputFile                                                                                   string
 }
@@ -132,6 +134,11 @@ func generateOnce(p *progen.Program, fs *MemFS, outDir string, go10 genOptsC10) 
 		return genOutcomeC10{err: "compile: " + err.Error()}
 	}
 	cap := &captureGen{files: map[string][]byte{"plug/extra.go": []byte("package plug\n")}}
+	if go10.PluginTwoSpellings {
+		// one plugin naming one file under two spellings with different contents: rejected
+		// every time (never accepted with whichever entry the map walk meets last)
+		cap.files["./plug/extra.go"] = []byte("package plug // the other spelling\n")
+	}
 	opts := &gen.Options{
 		OutputDir:             outDir,
 		PackagePrefix:         "example.com/gen",
@@ -171,6 +178,19 @@ func cliOnce(p *progen.Program, sandbox string, go10 genOptsC10) (o genOutcomeC1
 	os.RemoveAll(sandbox)
 	thrift := filepath.Join(sandbox, "thrift")
 	out := filepath.Join(sandbox, "out")
+	if go10.DerivedPrefix {
+		// two workspaces, one inside the other; the output directory lies in both
+		out = filepath.Join(sandbox, "ws", "src", "corp", "src", "example.com", "gen")
+		saved, had := os.LookupEnv("GOPATH")
+		os.Setenv("GOPATH", filepath.Join(sandbox, "ws")+string(os.PathListSeparator)+filepath.Join(sandbox, "ws", "src", "corp")+string(os.PathListSeparator)+filepath.Join(sandbox, "elsewhere"))
+		defer func() {
+			if had {
+				os.Setenv("GOPATH", saved)
+			} else {
+				os.Unsetenv("GOPATH")
+			}
+		}()
+	}
 	if err := os.MkdirAll(out, 0755); err != nil {
 		panic(err)
 	}
@@ -183,7 +203,10 @@ func cliOnce(p *progen.Program, sandbox string, go10 genOptsC10) (o genOutcomeC1
 			panic(err)
 		}
 	}
-	args := []string{"thriftrw", "--out", out, "--pkg-prefix", "example.com/gen"}
+	args := []string{"thriftrw", "--out", out}
+	if !go10.DerivedPrefix {
+		args = append(args, "--pkg-prefix", "example.com/gen")
+	}
 	for _, x := range []struct {
 		n string
 		b bool
@@ -251,6 +274,8 @@ func RunC10(cfg simrt.Config, o world.Opts) *world.Result {
 				g.OutputFile = "single.go"
 			}
 		}
+		g.PluginTwoSpellings = simrt.Flip("c10.plugin-two-spellings", 0.1)
+		g.DerivedPrefix = simrt.Flip("c10.derived-pkg-prefix", 0.3)
 		if o.Trace {
 			logf("options %s", g)
 			for _, l := range strings.Split(p.Describe(), "\n") {
